@@ -16,7 +16,8 @@ Definition modifies (c : cmd) : option (ty * bytes) :=
   | CHSet k _ _ _ | CHMSet k _ | CHDel k _ | CHIncrBy k _ _ => Some (TH, k)
   | CSAdd k _ | CSRem k _ | CSPop k _ => Some (TS, k)
   | CZAdd k _ | CZIncrBy k _ _ | CZRem k _ | CZRemRangeByScore k _ _ => Some (TZ, k)
-  | CLPush k _ _ | CLPop k _ => Some (TL, k)
+  | CLPush k _ _ | CLPop k _ | CLTrim k _ _ | CLSet k _ _ => Some (TL, k)
+  | CZRemRangeByRank k _ _ => Some (TZ, k)
   | _ => None
   end.
 
@@ -157,6 +158,42 @@ Proof.
   - cbn [fst]. now apply (apply_fix_hdr s s ts k m m').
 Qed.
 
+Lemma meta_get_fold_el_del_z t k v (l : list Z) s t' k' :
+  meta_get (fold_left (fun st i => el_del st t k v (SI i)) l s) t' k' = meta_get s t' k'.
+Proof. apply (meta_get_fold_el_del t k v (fun i : Z => SI i)). Qed.
+Lemma do_ltrim_hdr s ts k a b m m' : meta_get s TL k = Some m -> is_expired Compact (m_hdr m) ts = false ->
+  meta_get (fst (do_ltrim Compact s ts k a b)) TL k = Some m' -> m_hdr m' = m_hdr m.
+Proof.
+  intros K E. unfold do_ltrim. destruct (live_header s ts TL k m K E) as [L _]. rewrite L. cbn [not_exist_or_expired orb].
+  destruct (list_meta_of (Some (m_a m, m_b m))) as [[hd tl] llen]. cbv zeta.
+  match goal with |- context [if ?c then _ else _] => destruct c end.
+  - cbn [fst]. destruct (llen =? 0); [now apply same_meta|].
+    rewrite meta_get_del, (proj2 (mkey_eqb_eq (TL, k) (TL, k)) eq_refl). discriminate.
+  - match goal with |- context [list_set_meta ?x ?y ?z ?u ?w] => destruct (list_set_meta x y z u w) as [s2|] eqn:LS end;
+      [|cbn [fst]; now apply same_meta].
+    cbn [fst]. intros K'. eapply meta_list_set_meta; eauto.
+Qed.
+Lemma do_lset_hdr s ts k i v m m' : meta_get s TL k = Some m -> is_expired Compact (m_hdr m) ts = false ->
+  meta_get (fst (do_lset Compact s ts k i v)) TL k = Some m' -> m_hdr m' = m_hdr m.
+Proof.
+  intros K E. unfold do_lset. destruct (live_header s ts TL k m K E) as [L _]. rewrite L. cbn [not_exist_or_expired orb].
+  destruct (list_meta_of (Some (m_a m, m_b m))) as [[hd tl] size]. cbv zeta.
+  destruct (size =? 0); [cbn [fst]; now apply same_meta|].
+  match goal with |- context [if ?c then _ else _] => destruct c end; [cbn [fst]; now apply same_meta|].
+  destruct (list_set_meta s k (m_hdr m) hd tl) as [s1|] eqn:LS; [|cbn [fst]; now apply same_meta].
+  cbn [fst]. rewrite meta_get_el_put. intros K'. eapply meta_list_set_meta; eauto.
+Qed.
+Lemma do_zrrbr_hdr s ts k a b m m' : meta_get s TZ k = Some m -> is_expired Compact (m_hdr m) ts = false ->
+  meta_get (fst (do_zremrangebyrank Compact s ts k a b)) TZ k = Some m' -> m_hdr m' = m_hdr m.
+Proof.
+  intros K E. unfold do_zremrangebyrank. destruct (live_header s ts TZ k m K E) as [L _]. rewrite L. cbv zeta.
+  destruct (size_of (Some (m_a m, m_b m)) =? 0); [cbn [fst]; now apply same_meta|].
+  match goal with |- context [if ?c then _ else _] => destruct c end.
+  { cbn [not_exist_or_expired orb fst]. rewrite meta_get_del, (proj2 (mkey_eqb_eq (TZ, k) (TZ, k)) eq_refl). discriminate. }
+  match goal with |- context [if ?c then _ else _] => destruct c end; [cbn [fst]; now apply same_meta|].
+  match goal with |- context [if ?c then _ else _] => destruct c end; cbn [fst]; apply meta_incr_size_hdr.
+Qed.
+
 (* (a) a modifying command on a live key keeps its header: the expiry and the generation *)
 Theorem modify_keeps_header s ts c t k h h' :
   modifies c = Some (t, k) -> hdr_of s t k = Some h -> is_expired Compact h ts = false ->
@@ -198,6 +235,9 @@ Proof.
   - eapply do_zrrbs_hdr; eauto.
   - eapply do_lpush_hdr; eauto.
   - eapply do_lpop_hdr; eauto.
+  - eapply do_ltrim_hdr; eauto.
+  - eapply do_lset_hdr; eauto.
+  - eapply do_zrrbr_hdr; eauto.
 Qed.
 
 (* (b) overwriting the whole value clears the expiry (fresh header: no expiry) *)
